@@ -6,7 +6,7 @@ random sequences with nested entry-value blocks up to depth 5 plus a malformed s
 unknown opcodes, bad WASM tags) on which only model and implementation are compared."""
 from tools.lib.framework import impl_call
 
-CLAIMED = False
+CLAIMED = True
 CONFIG = {'assumptions': [
     'a parse result is compared as the tree (op, op_name, args, offset); a list-of-ints argument and an empty nested '
     'expression are both the Python value [] and are identified',
@@ -194,7 +194,10 @@ def rand_val(rng, kind, cfg):
 
 def rand_op(rng, table, opcodes, with_operands, cfg, depth, maxdepth):
     while True:
-        opc = rng.choice(with_operands if rng.random() < 0.6 else opcodes)
+        if depth < maxdepth and rng.random() < 0.22:
+            opc = rng.choice([o for o in with_operands if table[o][1] == ['NESTED']])
+        else:
+            opc = rng.choice(with_operands if rng.random() < 0.6 else opcodes)
         kinds = table[opc][1]
         if kinds == ['NESTED']:
             if depth >= maxdepth:
@@ -345,7 +348,6 @@ def _blame(ctx, parsers, table, cfg, ops):
         if h not in seen:
             seen.add(h)
             singles.append(o)
-    singles = singles[:400]
     ans = ctx.driver.batch([['case', cfg, [o]] for o in singles])
     for o, a in zip(singles, ans):
         wf, canon, data, expected, model, reenc = a
@@ -365,6 +367,7 @@ def evaluate(ctx, cases):
     table = _table(ctx)
     parsers = _parsers()
     reqs = []
+    cases = [('ops' if kind == 'reencode' else kind, a) for kind, a in cases]   # a replayed re-encode echo is an ops case
     for kind, a in cases:
         if kind in ('ops', 'trunc'):
             reqs.append(['case', a[0], a[1]])
